@@ -361,7 +361,7 @@ func c04Prefix(m *vk.Meta, in c04In, out c04Out) {
 			}
 		}
 		m.Violations = append(m.Violations, map[string]any{"clause": "an update cut short by a failed call does not destroy (a) where it held before", "input": in,
-			"detail": fmt.Sprintf("old list %v, list after %v", in.OldActive, listAfter), "signature": map[string]any{"cause": cause}})
+			"detail": fmt.Sprintf("old list %v, list after %v", in.OldActive, listAfter), "signature": map[string]any{"cause": cause, "failing_call": c04FailingCall(in)}})
 	}
 	if b0 && !b1 {
 		cause := "unclassified"
@@ -375,8 +375,23 @@ func c04Prefix(m *vk.Meta, in c04In, out c04Out) {
 		}
 		m.Violations = append(m.Violations, map[string]any{"clause": "an update cut short by a failed call does not destroy (b) where it held before", "input": in,
 			"detail": fmt.Sprintf("old list %v, list after %v, master wait=%d enabled=%v", in.OldActive, listAfter, out.Nodes["h1"].WaitCount, out.Nodes["h1"].SSMaster),
-			"signature": map[string]any{"cause": cause}})
+			"signature": map[string]any{"cause": cause, "failing_call": c04FailingCall(in)}})
 	}
+}
+
+// c04FailingCall names the injected failure of the run: statement kind @ master|replica, or the coordination operation
+func c04FailingCall(in c04In) string {
+	switch {
+	case in.Fault != nil:
+		role := "replica"
+		if in.Fault.Host == "h1" {
+			role = "master"
+		}
+		return in.Fault.Kind + "@" + role
+	case in.DcsFault != nil:
+		return "dcs:" + in.DcsFault.Op + ":" + strings.SplitN(in.DcsFault.Path, "/", 2)[0]
+	}
+	return "none"
 }
 
 // c04Kind classifies the input for known-finding signatures
